@@ -8,7 +8,7 @@ From RU Require Import Base.Prelude Base.Utf8 Model.AsciiSet Gen.Tables Model.Pe
   Model.HostT Model.UrlRecord Model.Parser Model.Setters Model.WF Model.KnownC01 Model.KnownC07 Spec.Whatwg
   Proofs.ListN Proofs.C03_WF Proofs.C06_List Proofs.C06_WFI Proofs.C06_Tail Proofs.C06_Suffix Proofs.C06_Front
   Proofs.C06_Steps Proofs.C06_FragQuery Proofs.C06_Port
-  Proofs.C01_EqApi Proofs.C07_Defs.
+  Proofs.C02_Enc Proofs.C01_EqApi Proofs.C07_Defs.
 
 (* ---------- decimal text of a port ---------- *)
 Lemma decimal_serialize_sweep :
@@ -132,7 +132,10 @@ Record corr (u : url) (su : spec_url) : Prop := mk_corr {
   co_query : query dbg u = Some (su_query su);
   co_frag : fragment dbg u = Some (su_fragment su);
   co_marker : negb (has_authority_b u) && (path_start u =? scheme_end u + 3) = spec_marker su;
-  co_opaque : is_opaque_b u = has_opaque_path su
+  co_opaque : is_opaque_b u = has_opaque_path su;
+  (* the stored username contains no byte of the userinfo percent-encode set (Url::set_username
+     compares the stored text with the raw argument before encoding it) *)
+  co_uclean : clean T_USERINFO (su_username su) = true
 }.
 
 Lemma optl_pw_opt p : optl (pw_opt p) = p.
@@ -144,7 +147,7 @@ Proof. destruct p; reflexivity. Qed.
 (* the serialization of a related record is the Standard's serialization *)
 Lemma corr_href u su : corr u su -> ser u = serialize_url shs su false.
 Proof.
-  intros [W HT Es Eun Epw Eh Ehh Ea Eat Epo Ept Eq Ef Em Eo].
+  intros [W HT Es Eun Epw Eh Ehh Ea Eat Epo Ept Eq Ef Em Eo Ec].
   destruct (accessors_reconcatenate dbg u W)
     as (sch & un & pw & hs & pth & q & f & Es1 & Eun1 & Epw1 & Ehs1 & Ept1 & Eq1 & Ef1 & Eser & Hh1 & Hh0).
   rewrite Es in Es1. rewrite Eun in Eun1. rewrite Epw in Epw1. rewrite Ept in Ept1. rewrite Eq in Eq1. rewrite Ef in Ef1.
@@ -188,7 +191,7 @@ Proof. destruct f as [[|a r]|]; reflexivity. Qed.
 Theorem corr_api u su : corr u su -> model_api dbg u = Some (spec_api_list shs su).
 Proof.
   intros C. pose proof (corr_href u su C) as Ehref.
-  destruct C as [W HT Es Eun Epw Eh Ehh Ea Eat Epo Ept Eq Ef Em Eo].
+  destruct C as [W HT Es Eun Epw Eh Ehh Ea Eat Epo Ept Eq Ef Em Eo Ec].
   change (model_api dbg u) with (api_of_model dbg u).
   destruct (host_str u) as [hs|] eqn:Ehs; [|discriminate Eh]. cbn [host_text option_map] in Eh. injection Eh as Eh.
   rewrite (api_by_accessors dbg u W _ _ _ _ _ _ _ Es Eun Epw Ehs Ept Eq Ef). f_equal.
@@ -220,7 +223,7 @@ Qed.
 Theorem corr_cannot_have u su : corr u su ->
   cannot_have_credentials_or_port u = Some (cannot_have_username_password_port su).
 Proof.
-  intros [W HT Es Eun Epw Eh Ehh Ea Eat Epo Ept Eq Ef Em Eo].
+  intros [W HT Es Eun Epw Eh Ehh Ea Eat Epo Ept Eq Ef Em Eo Ec].
   unfold cannot_have_credentials_or_port, cannot_have_username_password_port.
   destruct (has_host u) eqn:Hh; cbn [negb].
   - symmetry in Ehh. apply negb_true_iff in Ehh. rewrite Ehh. cbn [orb].
